@@ -74,10 +74,12 @@ func (m *c12Majordomo) Fetch(_ context.Context, _ string) ([]byte, error) {
 }
 
 type c12Accounts struct {
-	mode int // 0: one account, 1: none, 2: error
+	mode  int // 0: one account, 1: none, 2: error
+	asked []phase0.Epoch
 }
 
-func (a *c12Accounts) ValidatingAccountsForEpoch(_ context.Context, _ phase0.Epoch) (map[phase0.ValidatorIndex]e2wtypes.Account, error) {
+func (a *c12Accounts) ValidatingAccountsForEpoch(_ context.Context, epoch phase0.Epoch) (map[phase0.ValidatorIndex]e2wtypes.Account, error) {
+	a.asked = append(a.asked, epoch)
 	switch a.mode {
 	case 1:
 		return map[phase0.ValidatorIndex]e2wtypes.Account{}, nil
